@@ -339,10 +339,12 @@ BASES = [
     ('live-cenc-timeline', '/dash/live/bbb/manifest_e.mpd?depth=8&drm=playready&timeline=1', 'live',
      {'depth': '8', 'drm': 'playready', 'timeline': '1'}),
     ('live-tears', '/dash/live/tears/hand_made.mpd?depth=8', 'live', {'depth': '8'}),
+    # on-demand profile: every media request is a byte range of one file
+    ('odvod', '/dash/odvod/bbb/manifest_vod_aiv.mpd', 'odvod', {}),
 ]
 # thorough tier only
 MORE_BASES = [
-    ('odvod', '/dash/odvod/bbb/manifest_vod_aiv.mpd', 'odvod', {}),
+    ('odvod-hand-made', '/dash/odvod/bbb/hand_made.mpd', 'odvod', {}),
     ('mps-vod', '/mps/vod/testmps/hand_made.mpd', 'vod', {}),
     ('live-patch', '/dash/live/bbb/hand_made.mpd?depth=8&timeline=1&patch=1', 'live', {'depth': '8', 'timeline': '1', 'patch': '1'}),
     ('vod-tears-timeline', '/dash/vod/tears/manifest_e.mpd?timeline=1', 'vod', {'timeline': '1'}),
